@@ -19,7 +19,8 @@ CHECKS = {
         design="DESIGN.md section 4, C03"),
     "C04": dict(
         engine="E1 space",
-        technique="complete enumeration of truth value x provenance pairs on the real interpreter against Kleene tables, with re-evaluation of the same node",
+        technique="complete enumeration of truth value x provenance pairs on the real interpreter against Kleene tables, with re-evaluation of the same node"
+             ' The result of a comparison with a null side must be a *boolean* null (typeof, combination with or / and / not / xor); the iterator left by a forall is an atom and is probed after every case.',
         text="All pairs of {true,false,null} x 9..11 provenances (constant, typed constructor, variable, undefined-type variable, function result, table "
              "element, tuple item, result of not/comparison) for and/&&/or/||/xor and not/!, every relational operator with a null side for every "
              "scalar type and null provenance, and if/elsif/while conditions are run on the real interpreter; each expression is evaluated once and "
@@ -30,7 +31,8 @@ CHECKS = {
         design="DESIGN.md section 4, C04"),
     "C06": dict(
         engine="E1 space",
-        technique="bounded exhaustive enumeration of loop headers and of all nestings of control statements, each run on the real interpreter and compared step by step with a reference interpreter",
+        technique="bounded exhaustive enumeration of loop headers and of all nestings of control statements, each run on the real interpreter and compared step by step with a reference interpreter"
+             ' break / continue where no loop of the same function or program runs (10 programs, C++ and C API routes).',
         text="(a) Every for header over first/limit in {MIN, MIN+1, -2..2, MAX-1, MAX, null} x step in {absent, null, MIN, -1, 0, 1, 2, MAX} x {auto, asc, desc}, "
              "every short range run to completion near 0 / INT64_MAX / INT64_MIN including bodies that write the control variable, and forall over tables of "
              "length 0..3; (b) every program of a nesting grammar (if/else, for, while, forall, begin+handler around blocks of print / break / continue / return / "
@@ -56,7 +58,8 @@ CHECKS = {
         design="DESIGN.md section 4, C07"),
     "C01": dict(
         engine="E1 space",
-        technique="bounded exhaustive sweeps of byte strings, token strings, single deviations from valid programs and the vocabulary x argument-value product, executed on the real interpreter under ASan+UBSan with fork isolation",
+        technique="bounded exhaustive sweeps of byte strings, token strings, single deviations from valid programs and the vocabulary x argument-value product, executed on the real interpreter under ASan+UBSan with fork isolation"
+             ' Round 3: the same vocabulary with every operand handed over through an untyped function parameter (only run-time guards apply), tables of every element type in the alphabet.',
         text="Swept completely: all byte strings of length <=2 and of length 3 (4 and 5 in thorough) over scanner character classes; all token strings of "
              "length <=3 (4) over representative tokens in a context holding a variable, a table, a tuple and a function; every truncation, token deletion, "
              "adjacent swap, duplication and single-byte substitution of 36 valid seed programs covering every statement and expression form; every "
@@ -69,7 +72,8 @@ CHECKS = {
         design="DESIGN.md section 4, C01"),
     "C08": dict(
         engine="E2 hist",
-        technique="exhaustive enumeration of all call histories up to a bound before each probe call, differential against a fresh context and against a model value",
+        technique="exhaustive enumeration of all call histories up to a bound before each probe call, differential against a fresh context and against a model value"
+             ' Calls as the operand of a program-level return; a function defined again after its earlier definition was called (6 x 6 bodies x 4 histories); error@1 outside handlers after a call whose handler raised; a built-in that fails at the second evaluation of an argument.',
         text="For each of 24 function groups (conditionally assigned locals of integer/string/table type, accumulating local, loop with early return, "
              "recursion, mutual recursion through redefinition, parameter mutation of table/string/integer, handled and unhandled errors, errors inside "
              "forall/for/while in the callee, nested return, overloads by arity, printing, type-changing and $-constrained locals, missing return) and each "
@@ -83,7 +87,8 @@ CHECKS = {
         design="DESIGN.md section 4, C08"),
     "C10": dict(
         engine="E1 space",
-        technique="bounded exhaustive enumeration of byte strings x position lattice x code lattice on the real interpreter, compared with Python bytes/base64 reference operations and round-trip relations",
+        technique="bounded exhaustive enumeration of byte strings x position lattice x code lattice on the real interpreter, compared with Python bytes/base64 reference operations and round-trip relations"
+             ' hex(value, width) over a 14 x 23 lattice with a model (the width is a digit count, not an allocation).',
         text="All strings of length <=2 (quick) / <=3 (thorough) over 11 bytes (NUL, space, a, A, 1, comma, quote, LF, 0x7f, 0x80, 0xff) for every unary "
              "string/bytes built-in; all strings over 4 bytes x positions {null, MIN, -1, 0..4, MAX} for lsubstr/rsubstr/substr/subraw/strpos/hash/hex/chr/at; "
              "all (string, begin, count) triples; all (x, y, z) triples for replace/tokenize/strpos; all strings of length <=3 (4) over 0 1 . e E - + space x a "
@@ -96,7 +101,8 @@ CHECKS = {
         design="DESIGN.md section 4, C10"),
     "C09": dict(
         engine="E2 hist",
-        technique="explicit-state breadth-first search over container operation histories on the real interpreter (states = canonical dumps, rebuilt by replay), invariant and reference-model comparison in every state",
+        technique="explicit-state breadth-first search over container operation histories on the real interpreter (states = canonical dumps, rebuilt by replay), invariant and reference-model comparison in every state"
+             " Rows of a table of tables (one of them null) receiving what an opaque function hands back; containers made for objects of one module never hold objects of another (C17's wrong-module programs).",
         text="Breadth-first search to depth 2 (quick) / 3 (thorough, bounded frontier reported) over histories of at/put/insert/delete/concat/count/set@/@ on "
              "seven table kinds (integer, decimal, string, bytes, boolean, tuple, 2-dimensional), a string, a bytes value and a 5-item tuple. Positions "
              "{null,-1,0,1,n-1,n,n+1,2^32,MAX}, ranks {0,1,2,5,6,2^32+1}, byte codes {null,-1,0,65,255,256,MAX}, element arguments of every type (matching, "
@@ -111,7 +117,8 @@ CHECKS = {
         design="DESIGN.md section 4, C09"),
     "C05": dict(
         engine="E1 space + E2 hist",
-        technique="exhaustive enumeration of the expression vocabulary with repeated evaluation and deep dumps; explicit-state breadth-first search over assignment/mutation histories compared with a deep-copy model",
+        technique="exhaustive enumeration of the expression vocabulary with repeated evaluation and deep dumps; explicit-state breadth-first search over assignment/mutation histories compared with a deep-copy model"
+             ' The alias search includes `return a / t / u / t.at(0)` steps (the host goes on using the context).',
         text="(a) Every expression of the vocabulary product (every builtin, operator, type method and @rank applied to the boundary value alphabet, literals and "
              "variables of every type) is printed three times by the same program node inside a loop and assigned twice; the three results must be equal and "
              "the deep dump of all 24 context variables (scalars, strings, bytes, tuples, 1- and 2-dimensional tables, nulls) must be identical before and "
@@ -124,7 +131,8 @@ CHECKS = {
         design="DESIGN.md section 4, C05"),
     "C11": dict(
         engine="E2 hist",
-        technique="exhaustive enumeration of (valid prefix x rejected text at every token position x probe suite) histories on the real parser, differential against an undisturbed twin context",
+        technique="exhaustive enumeration of (valid prefix x rejected text at every token position x probe suite) histories on the real parser, differential against an undisturbed twin context"
+             ' Type-safe ($) variables holding tables and tuples assigned another structure by the rejected text.',
         text="For each valid prefix (variables of every type, $-variable, tables, tuples, typed nulls; five functions incl. overloads and a recursive one) and "
              "each of 22 valid texts touching them (loops over existing variables, forall over existing and nested tables, begin/exception, typed "
              "re-declaration, redefinition of the first / middle / last / recursive function, new overload, chained statements), every truncation at a token "
@@ -152,7 +160,8 @@ CHECKS = {
         design="DESIGN.md section 4, C12"),
     "C13": dict(
         engine="E4 env",
-        technique="exhaustive enumeration of environment answers (read fragmentations with 0, 1, 2 deviations from the default delivery, fixed fragment sizes, long-line alignments) on the real scanner/parser, compared with the default delivery",
+        technique="exhaustive enumeration of environment answers (read fragmentations with 0, 1, 2 deviations from the default delivery, fixed fragment sizes, long-line alignments) on the real scanner/parser, compared with the default delivery"
+             ' Lexemes aligned across byte 64 x 1023 (16, 65, 128 x 1023 in thorough) with blank padding.',
         text="For each of 50 short texts that together contain every multi-character lexeme (numbers in every form, names, every 2-character operator, "
              "word operators, string escapes, doubled quotes, block/line/# comments, CRLF, and rejected texts), the byte stream is delivered by a fragmenting "
              "StreamReader with 0 splits (reference: one read per line), every single split position, every pair of split positions (every third triple in "
@@ -165,7 +174,8 @@ CHECKS = {
         design="DESIGN.md section 4, C13"),
     "C02": dict(
         engine="E1 space",
-        technique="bounded exhaustive enumeration of the (construct x operand type x nullness) matrix comparing compile-time and run-time types, of all short programs for batch-vs-stepwise equivalence, and of all (initial, assigned) type pairs under constraints",
+        technique="bounded exhaustive enumeration of the (construct x operand type x nullness) matrix comparing compile-time and run-time types, of all short programs for batch-vs-stepwise equivalence, and of all (initial, assigned) type pairs under constraints"
+             ' Every evaluated value is also checked against its own type (tuple items vs declaration, table elements vs element type, nulls included).',
         text="(a) For every expression of the vocabulary product (every builtin, operator, type method and @rank over literals, variables, typed nulls, untyped "
              "null, function results, table elements and tuple items of every type; depth-2 operator pairs in thorough) the static type is read from "
              "Expression::type() while the context is in parsing mode and compared with the type of the evaluated value (major, tuple structure, table "
@@ -181,7 +191,8 @@ CHECKS = {
         design="DESIGN.md section 4, C02"),
     "C14": dict(
         engine="E3 sched",
-        technique="stateless model checking of the implementation: depth-first exploration of all thread schedules up to a preemption bound under a cooperative scheduler that owns the instrumented points, plus a free-running ThreadSanitizer pass and exhaustive sequential call orders",
+        technique="stateless model checking of the implementation: depth-first exploration of all thread schedules up to a preemption bound under a cooperative scheduler that owns the instrumented points, plus a free-running ThreadSanitizer pass and exhaustive sequential call orders"
+             ' The orders program includes a source file (the included statements must run in the executing context).',
         text="harness/sched.cpp compiles one program, clones the context N times and runs bloc_execute2 on N real threads; only one thread runs at a time and "
              "control changes hands only at BLOC_VERIF_POINTs (statement entry, null node, random generator, error text buffer, C API last-error record, "
              "reference counts) and before a failed thread reads bloc_errno / bloc_strerror. All choice sequences with at most 2 preemptions for 2 threads "
@@ -197,7 +208,8 @@ CHECKS = {
         design="DESIGN.md section 4, C14"),
     "C16": dict(
         engine="E2 hist",
-        technique="explicit-state search over process-wide event histories (grants, loads, contexts, compiles) replayed on the real library in a fresh process per history, compared with a permission model",
+        technique="explicit-state search over process-wide event histories (grants, loads, contexts, compiles) replayed on the real library in a fresh process per history, compared with a permission model"
+             ' The spelling sweep also runs in a context that was trusted and made untrusted again, and includes import by path expression (`import str(..)`, `import zp`) and include, refused whatever is granted.',
         text="The module registry and the grant list are process-wide while trust is per context, so every history runs in a process of its own. Events: host "
              "grants vmod / vmod2, clears the grants, clones the untrusted context; a trusted context imports and constructs; the untrusted context and its "
              "clone import by name, import by path, include a file, construct at top level / inside a function body / by copy constructor / with another "
@@ -211,7 +223,8 @@ CHECKS = {
         design="DESIGN.md section 4, C16"),
     "C17": dict(
         engine="E2 hist",
-        technique="explicit-state breadth-first search over statement histories on the real interpreter with an instrumented module, each state checked against a reference-count model from the module's create/destroy/method event log",
+        technique="explicit-state breadth-first search over statement histories on the real interpreter with an instrumented module, each state checked against a reference-count model from the module's create/destroy/method event log"
+             ' Statements that return an object to a host that never collects it; the module logs foreign objects received as arguments; containers are checked against the module their type names.',
         text="harness/vmod.cpp (built as vmod and vmod2) gives every object its own heap block (guarded by ASan), an id and an event log. Breadth-first search "
              "to depth 4 (quick) / 6 (thorough) over 27 statements - construct, b = a, overwrite, store in table / tuple, delete, concat, pass to a "
              "function, return from a function, temporaries, chained self(), a method returning another object, copy constructor, INOUT argument, "
@@ -227,7 +240,8 @@ CHECKS = {
         design="DESIGN.md section 4, C17"),
     "C18": dict(
         engine="E1 space + E2 hist",
-        technique="bounded exhaustive enumeration of rows / byte strings / parameter tuples / operation sequences on the real modules, each compared with an independent reader (Python codecs, Python sqlite3, a byte-buffer twin file)",
+        technique="bounded exhaustive enumeration of rows / byte strings / parameter tuples / operation sequences on the real modules, each compared with an independent reader (Python codecs, Python sqlite3, a byte-buffer twin file)"
+             ' A prepared statement bound three times (values, nulls, values); a write without final newline in the quick file alphabet.',
         text="csv: every row of one field (length <=2 quick / <=3 thorough), two fields and three short fields over {a, space, separator, quote, LF, CR} for four "
              "separator/quote formats is serialised and deserialised in one shot and line by line (deserialize + deserialize_next per LF); the fields must "
              "come back identical with a complete-record status. utf8: every byte string of length <=3 / <=4 over 16 bytes covering every lead, "
@@ -248,7 +262,8 @@ CHECKS = {
         text="33 programs covering every outcome class (prints and succeeds, compile errors at known positions, unhandled runtime errors incl. errors inside a "
              "function and the recursion limit, handled error, return of boolean / integer / negative / decimal / 17-digit decimal / string / empty string / "
              "tuple / complex / null / typed null / table / bytes / nothing, output before a failure, $ARG readers, shebang, empty file) x all argument "
-             "vectors of <=1 (quick) / <=2 (thorough) items over {\"\", \"a b\", quoted, non-ASCII, -x, --out=z, -} x modes {file, - (stdin), --out=F}; 16 "
+             "vectors of <=1 (quick) / <=2 (thorough) items over {\"\", \"a b\"
+             ' 33 compile errors at places computed from the text (after block / line comments, multi-line strings, tabs, blank lines, inside a loop) compared with the reported line:column.', quoted, non-ASCII, -x, --out=z, -} x modes {file, - (stdin), --out=F}; 16 "
              "expressions through -e; 10 interactive transcripts fed to -i (including errors in a while condition, a for body, a forall body and a begin "
              "block followed by break and further loops) and 2 save/load sessions. Oracle: the in-process run of the same text with $ARG set identically: "
              "selected output byte-equal (stdout or the --out file, the other empty), returned value printed by the documented rule, exit status 0 iff no "
@@ -260,7 +275,8 @@ CHECKS = {
         design="DESIGN.md section 4, C19"),
     "C15": dict(
         engine="E2 hist",
-        technique="exhaustive enumeration of precondition-respecting C API call sequences generated from a state-machine model of handles and ownership, executed on the real library under ASan/LSan and compared call by call with the model",
+        technique="exhaustive enumeration of precondition-respecting C API call sequences generated from a state-machine model of handles and ownership, executed on the real library under ASan/LSan and compared call by call with the model"
+             ' A parse error inside every kind of block (while, forall, if, else, begin, handler, function body, nested, empty while body) followed by a function definition.',
         text="A model of two contexts, symbols A and B, three caller-owned values, two library-owned pointers, one expression and one executable drives 63 "
              "operations: creation of values of every type including NULL payloads, store/load, assign, inspection by every typed accessor (match iff type, "
              "NULL data iff null, table/tuple size and items, item access past the end), parse of 13 valid and 5 invalid texts with and without position "
